@@ -43,6 +43,10 @@ impl PayList {
     #[verifier::external_body]
     pub fn iter(&self) -> (r: PayIter<'_>) ensures r.v@ == self.v@ { unimplemented!() }
     #[verifier::external_body]
+    pub fn is_empty(&self) -> (r: bool) ensures r == (self.v@.len() == 0) { unimplemented!() }
+    #[verifier::external_body]
+    pub fn len(&self) -> (r: usize) ensures r == self.v@.len() { unimplemented!() }
+    #[verifier::external_body]
     pub fn first(&self) -> (r: Option<&ListsendpaysPayments>)
         ensures self.v@.len() == 0 ==> r is None, self.v@.len() > 0 ==> r == Some(&self.v@[0])
     { unimplemented!() }
